@@ -232,6 +232,28 @@ def build_case(seed, nbuf):
                         present[g.name] = v.exists_by_name(g.name) is True
                 arrays = any((g.typ is not None and g.typ.dims) for f in s.fields for g in [f] + (f.anon or []))
                 expect.append({"struct": s.name, "buf": b, "opt": OPTS[oi], "present": present, "deps": deps, "skip": [f.name for f in s.fields if f.text_output == "Skip"], "emit": [f.name for f in s.fields if f.text_output == "Emit"], "arrays": arrays, "nontrivial": bool(set(feats) & {"nested-struct", "array", "conditional", "dynamic-offset", "dynamic-array", "inline-bits", "anonymous-bits"})})
+        # numbers outside the range of the field's C++ type, congruent to a value the field accepts:
+        # a reader that wraps instead of rejecting writes that value and reports success
+        if oks:
+            b = oks[0]
+            v = RI.StructView(I, s, {}, b)
+            for f in s.fields:
+                for g in ([f] if not f.is_anon else f.anon):
+                    t = g.typ
+                    if t is None or t.dims or t.kind not in ("UInt", "Int", "Bcd"):
+                        continue
+                    try:
+                        fv = v.field_view_by_name(g.name)
+                        cur = fv.value() if (v.exists_by_name(g.name) is True and fv.ok()) else None
+                    except Exception:
+                        cur = None
+                    if not isinstance(cur, int) or isinstance(cur, bool) or g.is_virtual or not isinstance(fv, RI.ScalarView):
+                        continue
+                    for w in (8, 16, 32, 64):
+                        for n in (cur + 2**w, cur - 2**w):
+                            if -(2**63) <= n < 2**64 and not fv.representable(n) and rnd.random() < 0.5:
+                                script.append("U %d %s %s" % (si, b.hex() or "-", ("{ %s: %d }" % (g.name, n)).encode().hex()))
+                                expect.append({"probe": True, "struct": s.name, "buf": b, "field": g.name, "number": n, "current": cur, "virtual": bool(g.is_virtual), "kind": t.kind})
     return {"rejected": False, "text": text, "header": r.header, "driver": src, "script": "\n".join(script) + "\n", "expect": expect, "features": sorted(feats), "module": m, "excluded_float": excluded_float}
 
 
@@ -244,6 +266,14 @@ def compare(case, outputs, stats):
     m = case["module"]
     for e, got in zip(exp, outputs):
         gd = dict(got)
+        if e.get("probe"):
+            accepted = gd.get("u") == "1"
+            stats.case([case["text"], e["struct"], e["field"], e["number"]], True, ["out-of-range-number", "probe:" + e["kind"] + (":virtual" if e["virtual"] else ""), "probe-accepted" if accepted else "probe-rejected"], sample={"struct": e["struct"], "field": e["field"], "text": "{ %s: %d }" % (e["field"], e["number"]), "accepted": accepted} if stats.evaluations % 53 == 0 else None)
+            back = gd.get("w.%s.Read" % e["field"])
+            if accepted:
+                # the number is outside the values the field can hold at all
+                stats.fail({"kind": "number-wrapped-not-rejected", "field": e["kind"]}, {"text": case["text"], "struct": e["struct"], "buf": e["buf"].hex(), "update": "{ %s: %d }" % (e["field"], e["number"])}, "UpdateFromText(\"{ %s: %d }\") returned true although the field cannot hold that number; the field then reads %s (it read %d before)" % (e["field"], e["number"], back, e["current"]))
+            continue
         s = gd.get("text", "").replace("\\n", "\n").replace("\\\\", "\\")
         names = top_level_names(s)
         base, grouping, mode = e["opt"]
